@@ -548,6 +548,35 @@ static void sweep_misc(Jit& jit) {
 }
 
 // ---------------------------------------------------------------------------------------------------------------------
+// OpArray / VecArray (ujitbase.h): construction from n operands and the sub-array selectors
+// ---------------------------------------------------------------------------------------------------------------------
+static void sweep_oparray() {
+  auto emit = [&](const char* op, int n, int arg, const OpArray& r) {
+    vj::W w; w.beginObj(); w.kv("t", "obs").kv("k", "oparr").kv("op", op).kv("form", "").kv("w", 16).kv("lvl", "").kv("imm", -1).kv("idx", -1).kv("sz", 0).kv("sig", 0);
+    w.kv("n", n).kv("arg", arg).kv("size", (long long)r.size());
+    w.key("out").beginArr();
+    for (size_t i = 0; i < r.size(); i++) w.val((long long)r.v[i].as<Imm>().value());      // the operands are the immediates 1..n
+    w.endArr();
+    w.endObj(); w.emit(g_out); g_nobs++;
+  };
+  Imm o[9]; for (int i = 0; i < 9; i++) o[i] = Imm(i);
+  for (int n = 1; n <= 8; n++) {
+    OpArray a = n == 1 ? OpArray(o[1]) : n == 2 ? OpArray(o[1], o[2]) : n == 3 ? OpArray(o[1], o[2], o[3]) : n == 4 ? OpArray(o[1], o[2], o[3], o[4]) :
+                n == 5 ? OpArray(o[1], o[2], o[3], o[4], o[5]) : n == 6 ? OpArray(o[1], o[2], o[3], o[4], o[5], o[6]) :
+                n == 7 ? OpArray(o[1], o[2], o[3], o[4], o[5], o[6], o[7]) : OpArray(o[1], o[2], o[3], o[4], o[5], o[6], o[7], o[8]);
+    // selectors are applied to an array whose size is set independently of the constructor under test
+    OpArray b; b.init(&o[1], size_t(n));
+    emit("ctor", n, 0, a);
+    emit("init", n, 0, b);
+    emit("lo", n, 0, b.lo());
+    emit("half", n, 0, b.half());
+    emit("even", n, 0, b.even());
+    if (n > 1) { emit("hi", n, 0, b.hi()); emit("odd", n, 0, b.odd()); emit("even_odd", n, 0, b.even_odd(0)); emit("even_odd", n, 1, b.even_odd(1)); }
+    for (int k = 1; k <= 4; k++) emit("every_nth", n, k, b.every_nth(size_t(k)));
+  }
+}
+
+// ---------------------------------------------------------------------------------------------------------------------
 // the constant table: every p_<hex> constant is the 64-bit pattern its name says, repeated
 // ---------------------------------------------------------------------------------------------------------------------
 static void sweep_consts() {
